@@ -303,9 +303,81 @@ Section NoPoison.
   Qed.
 End NoPoison.
 
+(* ---- the line reader --------------------------------------------------------------------------------- *)
+Lemma split_lf_firstn_found n : forall T x r, split_lf T = (x, Some r) -> length x < n ->
+  exists r', split_lf (firstn n T) = (x, Some r').
+Proof.
+  induction n as [|n IH]; intros T x r E Hl; [lia|].
+  destruct T as [|b T]; [discriminate|]. cbn [firstn split_lf] in *.
+  destruct (Byte.eqb b LF); [inversion E; subst; eauto|].
+  destruct (split_lf T) as [x0 y0] eqn:E0. inversion E; subst.
+  simpl length in Hl. destruct (IH T x0 r E0 ltac:(lia)) as (r' & ->). eauto.
+Qed.
+
+Lemma split_lf_firstn_none n : forall T x, split_lf T = (x, None) ->
+  split_lf (firstn n T) = (firstn n T, None) /\ x = T.
+Proof.
+  induction n as [|n IH]; intros T x E.
+  - split; [reflexivity|]. revert x E. induction T as [|b T IHT]; intros x E; [inversion E; reflexivity|].
+    cbn [split_lf] in E. destruct (Byte.eqb b LF); [discriminate|].
+    destruct (split_lf T) as [x0 y0] eqn:E0. inversion E; subst. f_equal. apply IHT. reflexivity.
+  - destruct T as [|b T]; [inversion E; split; reflexivity|].
+    cbn [firstn split_lf] in *. destruct (Byte.eqb b LF); [discriminate|].
+    destruct (split_lf T) as [x0 y0] eqn:E0. inversion E; subst.
+    destruct (IH T x0 E0) as [-> ->]. split; reflexivity.
+Qed.
+
+Lemma split_lf_skipn : forall T x r, split_lf T = (x, Some r) -> skipn (S (length x)) T = r.
+Proof.
+  induction T as [|b T IH]; intros x r E; [discriminate|].
+  cbn [split_lf] in E. destruct (Byte.eqb b LF); [inversion E; reflexivity|].
+  destruct (split_lf T) as [x0 y0] eqn:E0. inversion E; subst. simpl length. apply (IH x0 r eq_refl).
+Qed.
+
+(* The guard of known finding F22: the line, with its terminator, fits the reader's buffer, or it
+   is the unterminated last line and shorter than the buffer. *)
+Definition line_fits (T : bytes) : Prop :=
+  match split_lf T with
+  | (x, Some _) => length x < BUFSZ
+  | (x, None) => length x < BUFSZ
+  end.
+
+(* Under the guard ByteReadLine is the ideal line reader: the text up to the next LF, without a CR
+   directly before it; the rest of the text at EOF.
+   Full statement (proved here only under line_fits; for lines longer than the buffer it needs the
+   fragment-joining argument, which is validated by the correspondence runs with lines of up to
+   3 x 4096 bytes but not proved):
+     forall T, (exists x r, split_lf T = (x, Some r)) \/ length T mod BUFSZ <> 0 (modulo the CR
+     put-back) -> read_line T = ideal_read_line T. *)
+Theorem read_line_ideal_partial T : line_fits T -> read_line T = ideal_read_line T.
+Proof.
+  unfold line_fits, read_line, ideal_read_line. intro H.
+  destruct T as [|b T]; [reflexivity|].
+  set (U := b :: T) in *. cbn [byte_read_line]. unfold buf_readline.
+  assert (EU : U = b :: T) by reflexivity. rewrite EU at 1.
+  destruct (split_lf U) as [x y] eqn:E. destruct y as [r|].
+  - destruct (split_lf_firstn_found BUFSZ U x r E H) as (r' & ->).
+    rewrite (split_lf_skipn U x r E). reflexivity.
+  - destruct (split_lf_firstn_none BUFSZ U x E) as [-> ->].
+    assert (Hf : firstn BUFSZ U = U) by (apply firstn_all2; lia).
+    rewrite Hf. apply Nat.ltb_lt in H. rewrite H. reflexivity.
+Qed.
+
+(* F22: the unterminated last line of exactly one buffer is lost: ByteReadLine reports io.EOF
+   although 4096 bytes of text were read.  Replayed on the Go code: replays/corpus/C06/lastline4096.json *)
+Theorem fixed_last_line_refuted_proof :
+  exists T, T <> [] /\ read_line T = RLEof /\ ideal_read_line T = RLOk T [].
+Proof.
+  exists (repeat x61 BUFSZ). split; [discriminate|]. split; vm_compute; reflexivity.
+Qed.
+
 (* ---- empty lines --------------------------------------------------------------------------------- *)
-Lemma read_line_eol b X : read_line (eol b ++ X) = Some ([], X).
-Proof. destruct b; reflexivity. Qed.
+Lemma read_line_eol b X : read_line (eol b ++ X) = RLOk [] X.
+Proof.
+  unfold read_line. destruct b; cbn [eol app length byte_read_line]; unfold buf_readline.
+  - change (firstn BUFSZ (CR :: LF :: X)) with (CR :: LF :: firstn (BUFSZ - 2) X). reflexivity.
+  - change (firstn BUFSZ (LF :: X)) with (LF :: firstn (BUFSZ - 1) X). reflexivity.
+Qed.
 
 (* old reader: an empty line (LF or CRLF) before any text is skipped *)
 Lemma f1_readline_skips_empty b X fuel :
